@@ -840,8 +840,12 @@ Subroutine.__module__ = "pyteal"
 @contextmanager
 def _frame_pointer_context(proto: Proto | None):
     tmp, SubroutineEval._current_proto = SubroutineEval._current_proto, proto
-    yield proto
-    SubroutineEval._current_proto = tmp
+    try:
+        yield proto
+    finally:
+        # restore the marker also when the subroutine body raises, otherwise every later
+        # compilation in this process believes it is inside a frame-pointer subroutine
+        SubroutineEval._current_proto = tmp
 
 
 @dataclass
